@@ -874,21 +874,27 @@ func (r *seqRunner) doMismatch(i int, op Op) *Violation {
 		alsoBits = fmt.Sprintf(" and %d instead of %d index bits", wrong.Bits, r.c.Cfg.Bits)
 		r.stats.MismatchesWithBits++
 	}
-	s, err := openStore(r.dir, wrong)
-	if err == nil {
-		s.Close()
-		return viol("mismatch-accepted|mismatch|", i, "open with a different %s file size (%d)%s succeeded", map[int]string{1: "index", 2: "primary"}[which], size, alsoBits)
-	}
-	var ie types.ErrIndexWrongFileSize
-	var pe types.ErrPrimaryWrongFileSize
-	if which == 1 && !errors.As(err, &ie) {
-		return viol("mismatch-wrong-error|mismatch|index", i, "open with index file size %d returned %v, want ErrIndexWrongFileSize", size, err)
-	}
-	if which == 2 && !errors.As(err, &pe) {
-		return viol("mismatch-wrong-error|mismatch|primary", i, "open with primary file size %d returned %v, want ErrPrimaryWrongFileSize", size, err)
+	// The same wrong open one to three times in a row (a refused open may
+	// not change what the next one decides: the first one drops the saved
+	// bucket table, so the following ones take the scan path).
+	attempts := 1 + (op.B+op.Key+i)%3
+	for a := 1; a <= attempts; a++ {
+		s, err := openStore(r.dir, wrong)
+		if err == nil {
+			s.Close()
+			return viol("mismatch-accepted|mismatch|", i, "open with a different %s file size (%d)%s succeeded (attempt %d of the same open)", map[int]string{1: "index", 2: "primary"}[which], size, alsoBits, a)
+		}
+		var ie types.ErrIndexWrongFileSize
+		var pe types.ErrPrimaryWrongFileSize
+		if which == 1 && !errors.As(err, &ie) {
+			return viol("mismatch-wrong-error|mismatch|index", i, "open with index file size %d returned %v, want ErrIndexWrongFileSize (attempt %d)", size, err, a)
+		}
+		if which == 2 && !errors.As(err, &pe) {
+			return viol("mismatch-wrong-error|mismatch|primary", i, "open with primary file size %d returned %v, want ErrPrimaryWrongFileSize (attempt %d)", size, err, a)
+		}
 	}
 	r.stats.Mismatches++
-	s, err = openStore(r.dir, r.c.Cfg)
+	s, err := openStore(r.dir, r.c.Cfg)
 	if err != nil {
 		return viol("mismatch-reopen-error|mismatch|"+errClass(err), i, "open with the original settings after a refused open failed: %v", err)
 	}
